@@ -347,6 +347,14 @@ func (g *genCtx) genOpts(op string) OptSpec {
 			o.UidMap = []IDRange{{0, 1000, 1}, {1, 100000, 65535}}
 			o.GidMap = []IDRange{{0, 1001, 1}, {1, 200000, 1000}}
 		}
+		if r.chance(1, 5) {
+			// a map that does not cover container root: 0:0-owned entries are untranslatable
+			o.UidMap = []IDRange{{1000, 100000, 1000}}
+			o.GidMap = []IDRange{{1000, 100000, 1000}}
+			if r.chance(1, 2) {
+				o.GidMap = []IDRange{{0, 200000, 2000}}
+			}
+		}
 	}
 	if r.chance(1, 8) {
 		o.UserNS = true
